@@ -144,8 +144,21 @@ def _build(d):
                              w_[:-1] + w_[-1].upper()])
         key = d.choice(vals) if d.pick(3) else d.choice(
             ['a', 'b', 'cz', 'dz', 'hello', 'zz', 'm', 'kiwis', 'lemo'])
-        return {'k': 'MATCH1', 'col': [recase(v) for v in vals],
-                'key': recase(key), 'omit': bool(d.pick(2))}
+        col = [recase(v) for v in vals]
+        if d.pick(3) == 0:
+            # MIXED ascending data: numbers (smaller than every text) first;
+            # a numeric key, or a text key not below the first text (what a
+            # text key below every text finds among numbers is not pinned
+            # down)
+            nums = sorted(set(d.int(-20, 40) for _ in range(d.int(1, 5))))
+            col = nums + col
+            if d.pick(3) == 0:
+                key = d.int(-25, 45) + d.choice([0, 0.5])
+            elif key < vals[0]:
+                key = vals[0]
+        return {'k': 'MATCH1', 'col': col,
+                'key': recase(key) if isinstance(key, str) else key,
+                'omit': bool(d.pick(2))}
     if k == 4:
         vals = sorted(set(d.int(-20, 40) for _ in range(nrows)))
         if d.pick(6) == 0 and vals:
@@ -376,12 +389,16 @@ def judge(case):
         if not col:
             return res
         pos = 0
-        if isinstance(key, str):
-            col = [v.lower() for v in col]
-            key = key.lower()
-            res.labels = ('MATCH1-text',)
+        mixed = len({isinstance(v, str) for v in col}) > 1
+        if isinstance(key, str) or mixed:
+            res.labels = ('MATCH1-mixed' if mixed else 'MATCH1-text',)
+
+        def k_(v):
+            # the total order of C09: numbers below texts, texts without
+            # regard to letter case
+            return (1, v.lower()) if isinstance(v, str) else (0, v)
         for i, v in enumerate(col):
-            if v <= key:
+            if k_(v) <= k_(key):
                 pos = i + 1
         f = '=MATCH(%s,%s%s)' % (lit(case['key']), _rng(0, len(col)),
                                   '' if case['omit'] else ',1')
@@ -389,9 +406,9 @@ def judge(case):
         want = N(pos) if pos else ('E', '#N/A')
         res.nontrivial = pos > 1
         if o != want:
-            dup = len(set(col)) < len(col)
+            dup = len(set(map(str, col))) < len(col)
             where = ('below-all' if pos == 0 else 'above-all'
-                     if key > col[-1] else 'equal' if key in col
+                     if pos == len(col) else 'equal' if key in col
                      else 'between')
             res.fail('MATCH1:%s%s' % (where, ':duplicates' if dup else ''),
                      want, o, f)
